@@ -11,7 +11,7 @@
 (* of the resulting program is Drawing!Netlist.                            *)
 (***************************************************************************)
 EXTENDS Drawing, Json
-CONSTANTS MaxEntries, Types, WireWeight, Randomised
+CONSTANTS MaxEntries, Types, WireWeight, Randomised, WithAC
 VARIABLES ents
 vars == <<ents>>
 
@@ -56,5 +56,9 @@ Check == (Len(ents) >= 3 /\ CompIdx(Prog) # {}) =>
           ref |-> RefClass(Prog), labels |-> Labels(Prog),
           dc |-> IF sl = <<>> THEN [ok |-> FALSE] ELSE [ok |-> TRUE, phi |-> [n \in Used(net) |-> Phi(net, ref, sl, n)],
                     u |-> [j \in DOMAIN net |-> U(net, ref, sl, j)], i |-> [j \in DOMAIN net |-> IRep(net, ref, sl, j)]],
-          ac |-> [ok |-> FALSE]])>>)
+          ac |-> IF ~WithAC THEN [ok |-> FALSE] ELSE
+                 LET neta == DrawNet(Prog, RI(2), Q(1, 1000))
+                     sa == IF ref \in Used(neta) THEN SolveOpt(neta, ref) ELSE <<>>
+                 IN IF sa = <<>> THEN [ok |-> FALSE] ELSE [ok |-> TRUE, phi |-> [n \in Used(neta) |-> Phi(neta, ref, sa, n)],
+                        u |-> [j \in DOMAIN neta |-> U(neta, ref, sa, j)], i |-> [j \in DOMAIN neta |-> IRep(neta, ref, sa, j)]]])>>)
 =============================================================================
